@@ -221,6 +221,7 @@ type Exec struct {
 	pendingGhost []pendingGhostCheck
 	allocSeq int
 	noSafety int
+	keepPre  bool
 	lastResult *smt.Term
 }
 
@@ -617,7 +618,7 @@ func (e *Exec) check(st *State, kind string, goal *smt.Term, pos token.Pos, labe
 		st.Assume(goal)
 		return
 	}
-	if e.noSafety > 0 && (kind == "pre" || kind == "panic-reach") {
+	if e.noSafety > 0 && ((kind == "pre" && !e.keepPre) || kind == "panic-reach") {
 		st.Assume(goal)
 		return
 	}
